@@ -103,7 +103,59 @@ func (st *wstate) checkClean(i int, l *scen.Lifetime, lf *model.Life, rep *scen.
 		}
 	}
 	if cleanFault {
-		return false // only "no panic, nothing on CI" is demanded when a fault hit Clean itself
+		// a fault hit Clean itself: only "no panic, nothing on CI" is demanded - and, if a
+		// summary is printed at all, it must not hide what Clean removed in this very call
+		sum, err := ParseSummary(rep.CleanOut)
+		if err != nil || !sum.Present {
+			return false
+		}
+		listed := map[string]bool{}
+		for _, f := range sum.Files {
+			listed[f] = true
+		}
+		for _, op := range rep.Ops {
+			if op.Seq > rep.CleanBegin && op.Kind == "remove" && op.Mut && !listed[op.Path] {
+				if st.hit(viol("clean-removed-unlisted-file", i, -1, op.Path, []string{"C20"}, "Clean removed %s but the summary it printed does not list it", op.Path)) {
+					return true
+				}
+			}
+		}
+		listedT := map[string]bool{}
+		for _, id := range sum.Tests {
+			listedT[id] = true
+		}
+		after, derr := world.ReadDisk(st.root, skipDisk)
+		if derr != nil {
+			return false
+		}
+		for _, path := range model.SortedKeys(touched) {
+			f := st.d.Multi[path]
+			if f == nil || f.Dirty || !Parseable(f) {
+				continue
+			}
+			b, present := after[path]
+			if !present {
+				continue // the whole file was removed: covered by the file list
+			}
+			act, perr := ParseSnap(b)
+			if perr != nil {
+				continue
+			}
+			has := map[string]bool{}
+			for _, e := range act {
+				has[e.ID] = true
+			}
+			for _, e := range f.Entries {
+				if !has[e.ID()] && !listedT[e.ID()] {
+					vv := viol("clean-removed-unlisted-entry", i, -1, e.ID(), []string{"C20"}, "Clean removed entry [%s] from %s but the summary it printed does not list it", e.ID(), path)
+					vv.File = path
+					if st.hit(vv) {
+						return true
+					}
+				}
+			}
+		}
+		return false
 	}
 	sum, err := ParseSummary(rep.CleanOut)
 	if err != nil {
@@ -188,7 +240,7 @@ func (st *wstate) checkClean(i int, l *scen.Lifetime, lf *model.Life, rep *scen.
 			}
 		}
 		for _, id := range sum.Tests {
-			if f, ok := appended[id]; ok && obsIDs[id] == 0 && !freeIDs[id] && !plan.MaybeDirty(id) {
+			if f, ok := appended[id]; ok && obsIDs[id] == 0 && !freeIDs[id] && !plan.MaybeDirtyElsewhere(id, f) {
 				vv := viol("clean-listed-appended-entry", i, -1, id, []string{"C07"}, "Clean lists entry [%s] as obsolete although a Match* call of this very process appended it to %s", id, f)
 				vv.File = f
 				if st.hit(vv) {
